@@ -67,7 +67,16 @@ class Config(object):
         self.check_share = rng.choice([0.0, 0.4, 0.8])
         self.lag_pref = rng.choice([None, None, "zero", "max", "undetectable"])
         self.mixed_k = rng.random() < 0.3
-        self.long_strands = prof["prop"] in ("C08", "C09", "C10", "C06") and rng.random() < 0.04
+        self.marathon = prof["prop"] in ("C09", "C10") and rng.random() < 1.0 / 1500
+        if self.marathon:
+            # one long-lived process: thousands of reads on one order-6 graph (state that only builds up over a long
+            # history - memo tables, grow-only buffers - is reached here and nowhere else)
+            self.k, self.n_designs, self.max_ops = 6, 1, rng.randint(2000, 3000)
+            self.populations = [("rows", 1)]
+            self.strand_max = 120
+            self.fault_weights = [("RANDOM", 6), ("MULTI", 2), ("LASTWIN", 2), ("TRUNC", 1), ("NONE", 1)]
+            self.meta = []
+        self.long_strands = prof["prop"] in ("C08", "C09", "C10", "C06") and rng.random() < 0.05 and not self.marathon
         if self.long_strands:
             if "MASSIVE" in self._prof_faults and "MASSIVE" not in [f for f, _ in self.fault_weights]:
                 self.fault_weights.append(("MASSIVE", 3))
@@ -79,7 +88,8 @@ class Config(object):
                 "populations": [p for p, _ in self.populations], "faults": [f for f, _ in self.fault_weights],
                 "meta": self.meta, "msg_max": self.msg_max, "strand_max": self.strand_max,
                 "fast_share": self.fast_share, "table_share": self.table_share, "check_share": self.check_share,
-                "lag_pref": self.lag_pref, "mixed_k": self.mixed_k, "long_strands": self.long_strands}
+                "lag_pref": self.lag_pref, "mixed_k": self.mixed_k, "long_strands": self.long_strands,
+                "marathon": self.marathon}
 
 
 class Molecule(object):
@@ -111,17 +121,32 @@ class Designer(Client):
     def __init__(self, sim):
         Client.__init__(self, sim)
         self.count = 0
+        self.history = []
 
     def step(self):
         sim, rng, cfg = self.sim, self.rng, self.sim.cfg
         made = len(sim.world.designs)
-        if self.count >= cfg.n_designs + 3 or (made >= cfg.n_designs and rng.random() < 0.9):
+        limit = cfg.n_designs + (8 if sim.prop == "C04" else 3)
+        if self.count >= limit or (made >= cfg.n_designs and rng.random() < (0.6 if sim.prop == "C04" else 0.9)):
             return None
         ident = "D%d" % self.count
         self.count += 1
+        if sim.prop == "C04" and self.history and rng.random() < 0.35:
+            # histories around generation: the owner screens a generated graph in place, or generates again from
+            # equal arguments (what was generated before must not matter)
+            if rng.random() < 0.5:
+                again = dict(rng.choice(self.history), id=ident)
+                self.history.append(again)
+                return again
+            targets = [d for _, d in sorted(sim.world.designs.items()) if d.generated and d.k <= 3 and
+                       getattr(d, "raw", None) is not None and len(M.arcs(d.rows)) > 2]
+            if targets:
+                return {"op": "DESIGN", "id": ident, "kind": "trim-inplace", "k": targets[0].k,
+                        "target": rng.choice(targets).id, "removals": rng.randint(1, 8), "ins": rng.random() < 0.7,
+                        "del": rng.random() < 0.7}
         pop = weighted(rng, cfg.populations)
         k = cfg.k
-        if cfg.mixed_k and rng.random() < 0.5:
+        if cfg.mixed_k and rng.random() < 0.5 and not cfg.marathon:
             k = weighted(rng, sim.prof["k_weights"])
         if pop == "trim":
             bases = [d for d in sim.world.designs.values() if d.k <= 3 and d.source != "trim" and len(M.arcs(d.rows)) > 2]
@@ -136,8 +161,10 @@ class Designer(Client):
         if pop in ("mask", "mask-t1"):
             threshold = 1 if pop == "mask-t1" else weighted(rng, [(1, 2), (2, 4), (3, 2), (4, 1)])
             density = rng.choice([0.35, 0.5, 0.65, 0.8, 0.9, 1.0]) if threshold < 3 else rng.choice([0.8, 0.9, 0.97, 1.0])
-            return {"op": "DESIGN", "id": ident, "kind": "mask", "k": k, "mask": G.random_mask(rng, k, density),
-                    "threshold": threshold, "dtype": rng.choice(["bool", "int"])}
+            op = {"op": "DESIGN", "id": ident, "kind": "mask", "k": k, "mask": G.random_mask(rng, k, density),
+                  "threshold": threshold, "dtype": rng.choice(["bool", "int"])}
+            self.history.append(op)
+            return op
         if pop == "filter":
             return {"op": "DESIGN", "id": ident, "kind": "filter", "k": k, "filter": G.random_filter(rng, k),
                     "threshold": weighted(rng, [(1, 3), (2, 4), (3, 1)])}
@@ -242,8 +269,13 @@ class Synth(Client):
             strand = "".join(out)
             if len(strand) < k or sim.prop == "C08":
                 return None
-        mol = Molecule("M%d" % len(sim.world.molecules), design.id, start, strand, kind="walk")
-        sim.world.molecules.append(mol)
+        self.made = getattr(self, "made", 0) + 1
+        mol = Molecule("W%d" % self.made, design.id, start, strand, kind="walk")
+        if len(sim.world.molecules) >= 60:
+            sim.world.molecules[rng.randrange(len(sim.world.molecules))] = mol     # the pool turns over
+        else:
+            sim.world.molecules.append(mol)
+        sim.progress = True
         sim.pool_event({"pool": "SYNTH", "mol": mol.id, "design": design.id, "n": len(strand)})
         return None
 
@@ -273,6 +305,7 @@ class Sequencer(Client):
             if at != len(sim.world.reads):
                 sim.stats.inc("faults", "REORDER")
             sim.world.reads.insert(at, read_op)
+            sim.progress = True
             sim.pool_event({"pool": "SEQUENCE", "mol": mol.id, "faults": read_op["faults"], "at": at})
         return None
 
@@ -373,6 +406,9 @@ class Sequencer(Client):
         elif op["mode"] == "repair":
             op["has_indel"] = rng.random() < 0.6
             op["heap"] = rng.choice(sim.prof["heaps"])
+            if len(edits) <= 2 and kind in ("NONE", "SUB", "INS", "DEL", "FIRST", "LASTWIN", "TRUNC", "EXTEND") \
+                    and rng.random() < 0.12:
+                op["heap"] = "inf"
         return op
 
     def plan_c08(self, mol, design):
@@ -395,7 +431,8 @@ class Sequencer(Client):
             faults.append("CHECK_RIGHT")
         return {"op": "READ", "mode": "repair", "design": design.id, "start": mol.start, "mol": mol.id, "origin": w,
                 "edits": edits, "read": M.apply_edits(w, edits), "faults": faults, "check": check,
-                "has_indel": True if not subs_only else rng.random() < 0.5, "heap": 100000}
+                "has_indel": True if not subs_only else rng.random() < 0.5,
+                "heap": "inf" if (len(edits) <= 2 and rng.random() < 0.2) else 100000}
 
 
 class Reader(Client):
@@ -492,6 +529,7 @@ class Sim(object):
         self.ctx = A.Ctx(prop, self.stats)
         self.log = EventLog()
         self.ops = []
+        self.progress = False
         self.results = []
         self.sched = stream(seed, "schedule")
 
@@ -527,8 +565,8 @@ class Sim(object):
         if self.tier == "thorough" and self.prop == "C06" and stream(self.seed, "huge?").random() < 1.0 / 1500:
             return self.run_huge()
         self.log.append({"seed": self.seed, "prop": self.prop, "tier": self.tier, "config": self.cfg.as_dict()})
-        clients = [CLIENTS[name](self) for name in self.prof["clients"]]
-        idle = 0
+        clients = [CLIENTS[name](self) for name in self.prof["clients"] if not (self.cfg.marathon and name == "writer")]
+        idle = spins = 0
         # the designer always goes first: nothing can run without a design
         order_bias = {"designer": 3.0}
         while len(self.ops) < self.cfg.max_ops and idle < 6 * len(clients):
@@ -537,9 +575,13 @@ class Sim(object):
             else:
                 client = weighted(self.sched, [(c, order_bias.get(c.name, 1.0) if len(self.world.designs) <
                                                 self.cfg.n_designs else 1.0) for c in clients])
+            self.progress = False
             op = client.step()
             if op is None:
-                idle += 1
+                idle = 0 if self.progress else idle + 1     # pool-internal steps (synthesis, sequencing) are progress
+                spins += 1
+                if spins > 40 * self.cfg.max_ops + 400:
+                    break
                 continue
             idle = 0
             rec = A.execute(op, self.world, self.ctx)
@@ -578,6 +620,9 @@ def run_one(prop, tier, seed, proxy=True):
     if prop == "C07":
         nontrivial = st.nonvacuous > 0 and (st.fault_in_op > 0 or bool(st.faults))
     from sim.kernel import sha
+    for name, u in A.JUMP_UTIL.items():
+        if u > st.max_util.get(name, 0.0):
+            st.max_util[name] = u
     return {"ops": sim.ops, "violation": violation, "digest": sim.log.digest(), "stats": st,
             "config": sim.cfg.as_dict(), "nontrivial": nontrivial, "result_digest": sha(sim.results)[:20]}
 
